@@ -118,14 +118,16 @@ def gen_tagged(rng, mode):
     if mode in ("zero", "min"):
         return []
     if mode == "max":
-        return [[1, ""], [127, "00"], [128, "ffff"], [4294967295, "a5" * 128]]
+        return [[0, ""], [127, "00"], [128, "ffff"], [4294967295, "a5" * 128]]
     if mode == "one":
         return [[1, "09"]]
     r = rng.random()
     if r < 0.45:
         return []
     n = rng.choice([1, 1, 2, 3, 5])
-    tags = sorted(rng.sample(sorted(set([t for t in VARINT_BOUNDS if t > 0] + [2, 3, 5, 1000, 70000, 2**31])), n))
+    tags = sorted(rng.sample(sorted(set(VARINT_BOUNDS + [2, 3, 5, 1000, 70000, 2**31])), n))
+    if rng.random() < 0.3:
+        rng.shuffle(tags)              # dict built in another order: must be written ascending
     return [[t, bytes(rng.randrange(256) for _ in range(rng.choice([0, 1, 2, 3, 7, 7, 127, 128]))).hex()] for t in tags]
 
 
@@ -216,6 +218,10 @@ def features(tr, v, h):
         inc("bytes:null" if v is None else "bytes:empty" if v == "" else "bytes:non-empty")
     elif k == "TaggedFields":
         inc("tagged:empty" if not v else "tagged:%d field(s)" % min(len(v), 3))
+        if v != sorted(v, key=lambda kv: kv[0]):
+            inc("tagged:not in ascending order")
+        if any(t == 0 for t, _ in v):
+            inc("tagged:tag 0")
         for t, b in v:
             inc("tag:%d-byte" % (1 + sum(t >= x for x in (128, 16384, 2097152, 268435456))))
     elif k in ("Array", "CompactArray"):
@@ -234,6 +240,18 @@ def features(tr, v, h):
         inc("bool:true" if v else "bool:false")
     elif k == "Float64":
         inc("float64:nan" if (v & 0x7FF0000000000000) == 0x7FF0000000000000 and (v & 0xFFFFFFFFFFFFF) else "float64:other")
+
+
+def pynorm(tr, v):
+    """the value with every TaggedFields item list sorted by tag (Wire.vnorm): what decode returns"""
+    k = tr["k"]
+    if k == "TaggedFields":
+        return sorted(v, key=lambda kv: kv[0])
+    if k in ("Array", "CompactArray"):
+        return None if v is None else [pynorm(tr["of"], x) for x in v]
+    if k == "Schema":
+        return [pynorm(f, x) for (_, f), x in zip(tr["fields"], v)]
+    return v
 
 
 def is_trivial(tr, v):
@@ -514,7 +532,7 @@ def run(ck: Check):
             bad = f"encode raised {r['exc']}"
         elif "dec_exc" in r:
             bad = f"decode of its own encoding raised {r['dec_exc']}"
-        elif r["dec"] != v:
+        elif r["dec"] != pynorm(tr, v):
             bad = "decode(encode(v)) != v"
         elif not r.get("rest_ok"):
             bad = "decode consumed bytes beyond the encoding"
@@ -588,17 +606,22 @@ def run(ck: Check):
                 corr_ok = False
                 corr_detail = corr_detail or f"coq printed {len(parsed)} results for {len(sh)} cases"
                 continue
-            for (case, r), (m_wt, m_enc_eq, m_dec_ok, m_spec) in zip(sh, parsed):
+            for (case, r), (m_wt, m_wtu, m_enc_eq, m_dec_ok, m_spec) in zip(sh, parsed):
                 name, tr, v = case
                 n_model += 1
                 in_domain = case not in domain_cases
+                canonical = pynorm(tr, v) == v
+                if m_wt and not m_wtu:
+                    corr_ok = False
+                    corr_detail = corr_detail or f"{name}: wt holds but wtu does not on {json.dumps(v)[:160]}"
+                m_wt = m_wt if canonical else m_wtu      # dicts in another order: the wider domain
                 if "exc" in r:
                     # the real encoder refused the value: the model must say "outside the domain"
-                    if m_wt:
+                    if m_wtu:
                         corr_ok = False
                         corr_detail = corr_detail or f"{name}: model says in range, real encode raised {r['exc']} on {v!r}"
                     continue
-                real_dec_ok = ("dec_exc" not in r) and r.get("dec") == v and bool(r.get("rest_ok"))
+                real_dec_ok = ("dec_exc" not in r) and r.get("dec") == pynorm(tr, v) and bool(r.get("rest_ok"))
                 why = None
                 if not m_enc_eq:
                     why = "bytes differ"
@@ -792,6 +815,14 @@ def run(ck: Check):
     ck.obligation("correspondence:negotiation-model-vs-real-builders", neg_ok, neg_detail)
     lap(f"negotiation: {n_neg} cases")
     ck.extra["negotiation_cases"] = n_neg
+    ck.extra["honest_note"] = (
+        "Parameters outside the property's list (transactional id, isolation level, coordinator type, timestamp "
+        "search, authorized operations; plus the ones the builders guard themselves) are NOT claimed to be guarded: "
+        "the builders drop them silently on versions that cannot express them — allow_auto_topic_creation=False "
+        "(Metadata < v4), group_instance_id (JoinGroup < v5, SyncGroup < v3), rack_id (Fetch < v11, documented in "
+        "fetch.py), resource_pattern_type_filter (Describe/Create/DeleteAcls v0).  Proved about the model as "
+        "c11_unlisted_params_dropped / c11_meaning_guard_all_params_refuted and replayed on the real builders on "
+        "every run (observations_unlisted_parameters_dropped); they raise no violation.")
     ck.extra["observations_unlisted_parameters_dropped"] = sorted(observations.values(), key=lambda d: (d["builder"], d["parameter"]))
 
     # ---------------------------------------------------------------- (2c) Request.prepare on made-up class lists
@@ -877,7 +908,7 @@ def run(ck: Check):
             bad = f"parsing a {c['resp']} reply raised {r['exc']}"
         elif r.get("corr") != 4242:
             bad = f"correlation id read as {r.get('corr')}"
-        elif r.get("dec") != c["v"] or not r.get("rest_ok"):
+        elif r.get("dec") != pynorm(structs[c["resp"]]["tree"], c["v"]) or not r.get("rest_ok"):
             bad = f"a {c['resp']} reply is parsed by {r.get('resp_type')} into a different value"
         if bad:
             bad_reply.setdefault(c["req"], []).append((len(json.dumps(c["v"])), bad, c, r))
@@ -909,15 +940,15 @@ def run(ck: Check):
         "model_agrees": "enc/dec of model/Wire.v reproduce these outputs (c11_varint32_refuted, c11_varint64_refuted)",
         "used_by_some_struct": False,
     }
-    # tagged fields: values of type dict[int, bytes] the encoder does not handle
-    for sig, pr, what in (
-            ("tagged:tag0", probes["tagged_tag0"],
-             "TaggedFields.encode({0: b'x'}) raises AssertionError (tag 0 is a valid Kafka tag; decode accepts it)"),
-            ("tagged:unsorted", probes["tagged_unsorted"],
-             "TaggedFields.encode({2: b'a', 1: b'b'}) writes the tags in dict order; its own decode rejects them "
-             "(out-of-order tag); the equal dict {1: b'b', 2: b'a'} round trips")):
-        if "exc" in pr or "dec_exc" in pr:
-            ck.violation(what, {"kind": "tagged", "probe": sig, "real": pr}, signature=sig)
+    # tagged fields: tag 0 and dicts built in non-ascending order (defects fixed in /repo; regression probes)
+    for sig, pr, want, what in (
+            ("tagged:tag0", probes["tagged_tag0"], [[0, "78"]],
+             "TaggedFields.encode({0: b'x'}) does not round trip (tag 0 is a valid Kafka tag; decode accepts it)"),
+            ("tagged:unsorted", probes["tagged_unsorted"], [[1, "62"], [2, "61"]],
+             "TaggedFields.encode({2: b'a', 1: b'b'}) is not decoded back to the same dict (tags must be written "
+             "in ascending order)")):
+        if pr.get("dec") != want:
+            ck.violation(what, {"kind": "tagged", "probe": sig, "real": pr, "expected_decode": want}, signature=sig)
     ck.extra["tagged_probes"] = {k: probes[k] for k in ("tagged_tag0", "tagged_unsorted", "tagged_sorted")}
     used_var = [n for n, s in structs.items() if re.search(r'"VarInt(32|64)"', json.dumps(s["tree"]))]
     ck.extra["outside_quantifier"]["used_by_some_struct"] = bool(used_var)
@@ -1168,9 +1199,12 @@ def replay(ck: Check, path):
         rp = json.load(f)["replay"]
     kind = rp.get("kind")
     if kind in ("roundtrip", "layout") and "value" in rp:
-        r = run_impl("c11_impl.py", {"codec": [{"s": rp["struct"], "v": rp["value"]}]}, env=IMPL_ENV)["codec"][0]
+        out = run_impl("c11_impl.py", {"describe": 1, "codec": [{"s": rp["struct"], "v": rp["value"]}]}, env=IMPL_ENV)
+        r = out["codec"][0]
+        trees = {s["name"]: s["tree"] for s in out["describe"]["structs"]}
+        trees.update({"prim:" + p["name"]: p["tree"] for p in out["describe"]["prims"]})
         print(json.dumps({"struct": rp["struct"], "value": rp["value"], "now": r}, indent=1))
-        if kind == "roundtrip" and (r.get("dec") != rp["value"] or not r.get("rest_ok")):
+        if kind == "roundtrip" and (r.get("dec") != pynorm(trees[rp["struct"]], rp["value"]) or not r.get("rest_ok")):
             ck.violation(f"{rp['struct']}: round trip still fails", rp, signature=f"roundtrip:{rp['struct']}")
         if kind == "layout" and r.get("enc") != rp.get("kafka_table_bytes"):
             ck.violation(f"{rp['struct']}: bytes still differ from the Kafka table", rp, signature=f"layout:{rp['struct']}")
@@ -1189,7 +1223,7 @@ def replay(ck: Check, path):
         c = {k: rp[k] for k in ("req", "resp", "v", "flex", "corr")}
         r = run_impl("c11_impl.py", {"reply": [c]}, env=IMPL_ENV)["reply"][0]
         print(json.dumps({"case": c, "now": r}, indent=1)[:3000])
-        if r.get("dec") != c["v"] or not r.get("rest_ok"):
+        if r.get("dec") != json.loads(json.dumps(c["v"])) or not r.get("rest_ok"):
             ck.violation(f"{c['req']}: reply still parsed into a different value", rp, signature=f"reply:{c['req']}")
     elif kind == "golden":
         r = run_impl("c11_impl.py", {"golden": [{"builder": rp["builder"], "ver": rp["version"],
